@@ -787,6 +787,9 @@ class CircuitTemplate(AbstractBaseTemplate):
             for key, value in node_values.items():
                 *node_id, op, var = key.split("/")
                 target_nodes = self.get_nodes(node_id)
+                if not target_nodes:
+                    warn(PyRatesWarning(f'The value passed for {key} was not applied: no node matches '
+                                        f'{"/".join(node_id)}.'))
                 for i, n in enumerate(target_nodes):
                     if n not in values:
                         values[n] = dict()
@@ -1397,6 +1400,9 @@ class CircuitTemplate(AbstractBaseTemplate):
         # extract target nodes from network
         *node_id, op, var = target.split('/')
         target_nodes = self.get_nodes(node_id, var_identifier=(op, var))
+        if not target_nodes:
+            warn(PyRatesWarning(f'The extrinsic input to {target} will not be applied: variable {var} has not been '
+                                f'found on operator {op} of any node matching {"/".join(node_id)}.'))
 
         # create input node
         node_key, op_key, var_key, in_node = create_input_node(var, inp, adaptive, sim_time, vectorized_net)
